@@ -35,6 +35,13 @@ def check(ck):
     r12_5(ck)
     from . import c15
     c15.r15_9(ck, rule='R12.6')
+    from . import c07
+    ck.shared('R12.8', 'emit flags reach every node they are declared for: '
+              'a child created at run time gets the sub-schema (flags '
+              'included) its parent declares for its children, and a '
+              'process is configured with the schema it has now, overrides '
+              'included, not one remembered from an earlier build',
+              c07.r07_5, c16_paths)
     from . import helpers as H
     ck.rule('R12.7', 'assoc_path (embedding of a row) keeps its recursion skeleton')
     H.assoc_path_shape(ck, 'R12.7')
@@ -121,7 +128,7 @@ def r12_2(ck):
         doms = [a for a in advs if cfg.iter_dominates(
             rf.while_loop, cfg.node(a), en)]
         ok = all(isinstance(a, ast.AugAssign) or not A.is_name(
-            a.value, 'end_time') for a in doms)
+            a.value, rf.end_name) for a in doms)
         ck.require(ok, 'R12.2', f, e,
                    'rows are emitted only in the branch that applies '
                    'updates (not in the jump branches)',
@@ -150,7 +157,7 @@ def r12_2(ck):
     for e in emits:
         g = cfg.guards(cfg.node(e))
         ok = any(a[0] == '==' and 'self.emit_step' in a[1:] for a in g) or \
-            any(a[0] in ('<=', '<') and 'emit_time' in a[1] and
+            any(a[0] in ('<=', '<') and a[1] in rf.emit_names and
                 a[2] == 'self.global_time' for a in g)
         ck.require(ok, 'R12.2', f, e,
                    'a row is emitted every step (emit_step 1) or when the '
@@ -296,8 +303,10 @@ def r12_4(ck):
         v = r.value
         if v is None or (isinstance(v, ast.Constant) and v.value is None):
             continue
-        if isinstance(v, ast.Name) and v.id == 'data':
-            continue
+        if isinstance(v, ast.Name) and any(
+                isinstance(d.value, ast.Dict)
+                for d in local_defs(f.node).get(v.id, [])):
+            continue        # the row assembled for a branch
         n += 1
         g = cfg.guards(cfg.node(r))
         ck.require(('truthy', 'self.emit') in g, 'R12.4', f, r,
@@ -322,6 +331,11 @@ def r12_4(ck):
     ck.require(bool(plain), 'R12.4', f, f.node.name,
                'a flagged leaf without serializer/units returns its value',
                'the plain-value return of emit_data vanished')
+
+
+def c16_paths(ck):
+    from . import c16
+    c16.r16_8_paths(ck)
 
 
 def _ancestors(x, stop):
